@@ -338,6 +338,23 @@ def check_expectation(ctx):
         cs = find_calls_named(ge.node, [callee])
         ok = len(cs) == 1 and norm(arg_or_kw(cs[0], 1, "n_qubits")) == "n_qubits"
         ctx.check(ok, R4, ge.key + f":{callee}", f"{callee} receives the state's width", f"{callee} is not given the width of the state: an operator narrower than the register is not identity-padded to it", ge)
+    # every exit is the quadratic form with the sparse matrix: a second way of computing the value (a diagonal shortcut, a
+    # per-term loop) is another implementation of the qubit numbering, which nothing here has related to get_sparse_operator
+    foreign = []
+    for r in returned_exprs(ge.node):
+        v = r
+        if isinstance(v, ast.Name):
+            ds = [x for x in d.defs.get(v.id, []) if isinstance(x, ast.AST)]
+            vs = ds or [v]
+        else:
+            vs = [v]
+        for x in vs:
+            while isinstance(x, ast.Attribute) and x.attr in ("real",):
+                x = x.value
+            okx = isinstance(x, ast.Call) and (dotted(x.func) or "").split(".")[-1] == "expectation" and len(x.args) >= 2 and "get_sparse_operator" in " ".join(d.atoms(x.args[0]) | {norm(x.args[0])}) and norm(x.args[1]) in (f"{wf}.amplitudes", wf)
+            if not okx:
+                foreign.append(x)
+    ctx.check(not foreign, R4, ge.key + ":exits", "every exit is expectation(get_sparse_operator(operator, width), state)", f"get_expectation_value also returns {short(foreign[0], 100) if foreign else ''}: a value not computed as the quadratic form of the state with the operator's sparse matrix, i.e. a second implementation of which bit of the basis index a qubit is (and of the identity padding)", f"{ge.module.relpath}:{getattr(foreign[0], 'lineno', ge.node.lineno)}" if foreign else ge)
     ex = repo.func(f"{SP}:expectation")
     ctx.analysed(ex)
     op, st = positional_params(ex.node)[:2]
@@ -507,6 +524,9 @@ def check_pauli_expansion(ctx):
 
 
 def run(ctx):
+    from ..lints import check_caches
+
+    check_caches(ctx, "C09-D6 conversions-stateless", ['operators._utils', 'operators._openfermion_utils.sparse_tools', 'operators._pauli_operators', 'api.wavefunction_simulator'])
     check_reverse(ctx)
     check_hermitian(ctx)
     check_sparse(ctx)
